@@ -59,6 +59,14 @@ def stack_record(ctx: Ctx, rid: int, rng: random.Random, kind: str, dims) -> dic
 
             def centre(i, j, k):
                 return place([x0 + (i + 0.5) * lx / nx, y0 + (j + 0.5) * ly / ny, (k + 0.5) * height / nz])
+        elif kind.startswith("extruded-"):
+            # the overall extrusion given as a vector - oblique to the sketch - in any of the forms a vector is accepted in
+            amount = vadd(vmul(normal, height), vsub(place([rng.uniform(-1, 1) * lx / nx, rng.uniform(-1, 1) * ly / ny, 0]), place([0, 0, 0])))
+            form = kind.split("-")[1]
+            stack = cb.ExtrudedStack(grid, {"list": list(amount), "tuple": tuple(amount), "array": np.array(amount)}[form], nz)
+
+            def centre(i, j, k):
+                return vadd(place([x0 + (i + 0.5) * lx / nx, y0 + (j + 0.5) * ly / ny, 0]), vmul(amount, (k + 0.5) / nz))
         elif kind == "transformed":
             stack = cb.TransformedStack(grid, [cb.Translation(vmul(normal, height / nz))], nz)
 
@@ -90,6 +98,13 @@ def stack_record(ctx: Ctx, rid: int, rng: random.Random, kind: str, dims) -> dic
         c = list(op.center)
         return min(cells, key=lambda cc: vdist(centres[cc], c))
 
+    # the operations are where the tiers of the stack are (not merely nearest to them)
+    for op in stack.operations:
+        off = vdist(list(op.center), centres[cell_of(op)])
+        if off > 1e-6 * (lx + ly + height):
+            ctx.violation(f"stack-geometry:{kind}", f"an operation of the {kind} stack is {off:.3g} away from the centre of every cell "
+                          f"of the stack that was asked for", {"dims": dims})
+            return None
     try:
         g = stack.grid
         grid_obs = [[[list(cell_of(g[k][j][i])) for i in range(nx)] for j in range(ny)] for k in range(nz)]
@@ -248,8 +263,10 @@ def run(ctx: Ctx) -> None:
     n = 12 if ctx.tier == "quick" else 100
     picks = rng.sample(distinct, min(n, len(distinct))) + rng.sample(sizes, 3 if ctx.tier == "quick" else 30)
     recs: List[dict] = []
-    for dims in picks:
-        kind = rng.choice(["extruded", "extruded", "revolved", "transformed"])
+    stack_kinds = ["extruded", "extruded-list", "extruded-tuple", "extruded-array", "revolved", "transformed"]
+    rng.shuffle(stack_kinds)
+    for n_pick, dims in enumerate(picks):
+        kind = stack_kinds[n_pick % len(stack_kinds)]
         r = stack_record(ctx, len(recs) + 1, rng, kind, dims)
         if r is not None:
             recs.append(r)
